@@ -603,3 +603,156 @@ Fixpoint ext_rev (l acc : list ascii) : list ascii :=
 
 Definition filepath_ext (s : string) : string :=
   string_of_list_ascii (ext_rev (rev (list_ascii_of_string s)) []).
+
+(* ---------- values of type any (interface{}) ----------
+   The dynamic type is part of the value: [ty] is the Go type as printed by
+   go/types ("string", "int64", "<import path>.<Name>"). Values of a type that
+   is not a string / integer / boolean kind are abstract: [id] stands for the
+   value (equal values, equal ids); AUncmp is a value of an uncomparable type
+   (slice, map, function): comparing two of the same type panics. *)
+Inductive anyv :=
+| ANil
+| AStr (ty s : string)
+| AInt (ty : string) (z : Z)
+| ABool (ty : string) (b : bool)
+| AOther (ty : string) (id : Z)
+| AUncmp (ty : string) (id : Z).
+
+Definition any_is_nil (a : anyv) : bool := match a with ANil => true | _ => false end.
+
+(* v, ok := x.(T) *)
+Definition any_str (ty : string) (a : anyv) : string * bool :=
+  match a with AStr t s => if String.eqb t ty then (s, true) else (EmptyString, false) | _ => (EmptyString, false) end.
+Definition any_int (ty : string) (a : anyv) : Z * bool :=
+  match a with AInt t z => if String.eqb t ty then (z, true) else (0%Z, false) | _ => (0%Z, false) end.
+Definition any_bool (ty : string) (a : anyv) : bool * bool :=
+  match a with ABool t b => if String.eqb t ty then (b, true) else (false, false) | _ => (false, false) end.
+
+(* x.(T): None = the assertion panics *)
+Definition any_str_opt (ty : string) (a : anyv) : option string :=
+  let '(v, ok) := any_str ty a in if ok then Some v else None.
+Definition any_int_opt (ty : string) (a : anyv) : option Z :=
+  let '(v, ok) := any_int ty a in if ok then Some v else None.
+Definition any_bool_opt (ty : string) (a : anyv) : option bool :=
+  let '(v, ok) := any_bool ty a in if ok then Some v else None.
+
+(* a == b on interface values: identical dynamic types and equal values *)
+Definition anyv_eqb (a b : anyv) : bool :=
+  match a, b with
+  | ANil, ANil => true
+  | AStr t s, AStr t' s' => String.eqb t t' && String.eqb s s'
+  | AInt t z, AInt t' z' => String.eqb t t' && Z.eqb z z'
+  | ABool t x, ABool t' x' => String.eqb t t' && Bool.eqb x x'
+  | AOther t i, AOther t' i' => String.eqb t t' && Z.eqb i i'
+  | _, _ => false
+  end.
+
+(* the comparison panics: both values have the same uncomparable type *)
+Definition anyv_cmp_panics (a b : anyv) : bool :=
+  match a, b with AUncmp t _, AUncmp t' _ => String.eqb t t' | _, _ => false end.
+
+Definition anyv_eq_opt (a b : anyv) : option bool :=
+  if anyv_cmp_panics a b then None else Some (anyv_eqb a b).
+
+Lemma any_str_string s : any_str "string" (AStr "string" s) = (s, true).
+Proof. reflexivity. Qed.
+
+Lemma any_str_ok ty a s : any_str ty a = (s, true) -> a = AStr ty s.
+Proof.
+  destruct a; cbn; try discriminate. destruct (String.eqb ty0 ty) eqn:E; [|discriminate].
+  intros H. inversion H. apply String.eqb_eq in E. subst. reflexivity.
+Qed.
+
+(* ---------- errors.Is / errors.As / comparison with a sentinel ----------
+   A package-level `var ErrX = errors.New(..)` is translated to
+   `Err "<pkg>.ErrX" msg []`: the typ of a sentinel is its name, no other error
+   value has it. An error struct T has typ "<pkg>.T" ("*<pkg>.T" when the
+   error is the address of a literal). *)
+Fixpoint err_has_typ (ty : string) (e : err) : bool :=
+  match e with
+  | Err t _ w =>
+      String.eqb t ty
+      || (fix any (l : list err) : bool :=
+            match l with [] => false | x :: r => err_has_typ ty x || any r end) w
+  end.
+
+(* err == sentinel (identity) *)
+Definition err_same (a b : option err) : bool :=
+  match a, b with
+  | Some (Err t _ _), Some (Err t' _ _) => String.eqb t t'
+  | None, None => true
+  | _, _ => false
+  end.
+
+(* errors.Is(err, sentinel): some error of the chain (Unwrap, also of the
+   several errors of a %w list / errors.Join) is the sentinel *)
+Definition err_is (e target : option err) : bool :=
+  match e, target with
+  | Some x, Some (Err t _ _) => err_has_typ t x
+  | None, None => true
+  | _, _ => false
+  end.
+
+(* errors.As(err, &target) for a target of the error type named ty *)
+Definition err_as (ty : string) (e : option err) : bool :=
+  match e with Some x => err_has_typ ty x | None => false end.
+
+(* errors.Join(errs...): nil when every error is nil *)
+Definition err_join (es : list (option err)) : option err :=
+  match flat_map olist es with
+  | [] => None
+  | l => Some (Err "errors.join" EmptyString l)
+  end.
+
+(* ---------- bytes, slices of slices, dynamic type of an error, filepath.Base ---------- *)
+
+(* []byte(s) and string(b) *)
+Definition bytes_of_str (s : string) : list Z := map Z.of_N (bytes s).
+Definition str_of_bytes (l : list Z) : string := B (map Z.to_N l).
+
+(* l[i:j] for a slice whose capacity equals its length (re-slicing beyond the
+   length, which Go allows up to the capacity, panics in this model) *)
+Definition list_slice {A} (l : list A) (i j : Z) : option (list A) :=
+  if ((0 <=? i) && (i <=? j) && (j <=? list_len l))%Z
+  then Some (firstn (Z.to_nat (j - i)) (skipn (Z.to_nat i) l))
+  else None.
+
+(* switch err.(type): the dynamic type of the error value itself (not of what it wraps) *)
+Definition err_dyn_in (tys : list string) (e : option err) : bool :=
+  match e with Some (Err t _ _) => existsb (String.eqb t) tys | None => false end.
+
+(* filepath.Base (Unix) *)
+Fixpoint strip_trailing_slashes (l : list ascii) : list ascii :=   (* l is reversed *)
+  match l with
+  | c :: r => if Ascii.eqb c "/"%char then strip_trailing_slashes r else l
+  | [] => []
+  end.
+
+Fixpoint take_until_slash (l : list ascii) (acc : list ascii) : list ascii :=   (* l is reversed *)
+  match l with
+  | c :: r => if Ascii.eqb c "/"%char then acc else take_until_slash r (c :: acc)
+  | [] => acc
+  end.
+
+Definition filepath_base (s : string) : string :=
+  match s with
+  | EmptyString => "."
+  | _ =>
+      match strip_trailing_slashes (rev (list_ascii_of_string s)) with
+      | [] => "/"
+      | l => string_of_list_ascii (take_until_slash l [])
+      end
+  end.
+
+(* ---------- interface values that may be nil ----------
+   A value of an interface type declared Nilable is a [ptr] to its non-nil
+   content (an opaque value, or the function of a one-method interface). *)
+Definition ptr_map {A B} (f : A -> B) (p : ptr A) : ptr B :=
+  match p with PNil => PNil | PGlob n v => PGlob n (f v) | PNew v => PNew (f v) end.
+
+(* v, ok := x.(I) for an interface type I: [as_] says whether the dynamic value also has type I *)
+Definition iface_assert {A B} (as_ : A -> option B) (x : ptr A) : ptr B * bool :=
+  match ptr_val x with
+  | Some v => match as_ v with Some w => (PNew w, true) | None => (PNil, false) end
+  | None => (PNil, false)
+  end.
